@@ -8,7 +8,7 @@ use mpd_client::commands::{self as c, Command as TypedCommand, ReplayGainMode, S
 use mpd_client::responses::PlayState;
 use mpd_client::tag::Tag;
 
-use super::typed::{self, close, frame_of, gen_ms, gen_name, gen_u64_edge, kv, ms_str, TIMESTAMPS};
+use super::typed::{self, close, frame_of, gen_ms, gen_name, gen_u64_edge, kv, ms_spell, ms_str, TIMESTAMPS};
 use crate::refmodel::mpdspec;
 use crate::util::acc::Acc;
 use crate::util::json::J;
@@ -104,13 +104,13 @@ pub fn status_fields(a: &AStatus, r: &mut Rng, permute: bool, extras: bool) -> V
         f.push(kv("time", format!("{}:{}", a.elapsed_ms.unwrap() / 1000, a.duration_ms.unwrap() / 1000)));
     }
     if let Some(v) = a.elapsed_ms {
-        f.push(kv("elapsed", ms_str(v)));
+        f.push(kv("elapsed", if permute && r.chance(1, 3) { ms_spell(v, r.next_u64()) } else { ms_str(v) }));
     }
     if let Some(v) = a.bitrate {
         f.push(kv("bitrate", v));
     }
     if let Some(v) = a.duration_ms {
-        f.push(kv("duration", ms_str(v)));
+        f.push(kv("duration", if permute && r.chance(1, 3) { ms_spell(v, r.next_u64()) } else { ms_str(v) }));
     }
     if extras {
         f.push(kv("audio", "44100:16:2"));
@@ -475,7 +475,7 @@ impl C16 {
         });
         #[cfg(feature = "chrono")]
         if n >= 1 {
-            for bad in ["2020-13-45T99:99:99Z", "yesterday", "", "2020-06-12 17:53:00"] {
+            for bad in typed::BAD_TIMESTAMPS {
                 cx.must_err("listplaylists", &replace(&f, "Last-Modified", bad), &format!("Last-Modified: {:?}", bad), |fr| c::GetPlaylists.response(fr));
             }
         }
@@ -622,11 +622,11 @@ impl Property for C16 {
     fn meta(&self, _cfg: &Cfg, _acc: &Acc) -> Meta {
         Meta {
             level: "exploration",
-            rule: "abstract replies are generated per kind from a schema typed from the protocol reference, encoded to `key: value` lines, parsed by the real protocol layer and converted by the real typed command; EXHAUSTIVE over all 2^13 optional-field subsets of status (volume, single, playlist, playlistlength, song+songid, nextsong+nextsongid, elapsed, duration, bitrate, xfade, updating_db, error, partition) in MPD's field order; random part: permuted status with MPD's extra fields (time, mixrampdb, mixrampdelay, audio), stats, count plain/grouped (repeated and changing group keys, group value equal to a tag name, songs/playtime in either order), list plain/grouped with 1-3 grouping tags, listplaylists, sticker get/list/find with '=' in values, channels, readmessages, tagtypes, update, rescan, addid, replay_gain_status; boundary numbers per type; one-field-at-a-time domain violations must give an error; run with the default and the chrono build; non-trivial = reply with >=1 optional field omitted or >=2 groups/rows; distinct by reply fields".into(),
+            rule: "abstract replies are generated per kind from a schema typed from the protocol reference, encoded to `key: value` lines, parsed by the real protocol layer and converted by the real typed command; EXHAUSTIVE over all 2^13 optional-field subsets of status (volume, single, playlist, playlistlength, song+songid, nextsong+nextsongid, elapsed, duration, bitrate, xfade, updating_db, error, partition) in MPD's field order; random part: permuted status with MPD's extra fields (time, mixrampdb, mixrampdelay, audio), stats, count plain/grouped (repeated and changing group keys, group value equal to a tag name, songs/playtime in either order), list plain/grouped with 1-3 grouping tags, listplaylists, sticker get/list/find with '=' in values, channels, readmessages, tagtypes, update, rescan, addid, replay_gain_status; boundary numbers per type; timestamps with Z, numeric offsets and fractional seconds; one-field-at-a-time domain violations must give an error (chrono build: 16 near-miss timestamps such as a 2-digit year, ` UTC`, `+0130`, stray blanks, missing seconds/zone, basic format, epoch number); run with the default and the chrono build; non-trivial = reply with >=1 optional field omitted or >=2 groups/rows; distinct by reply fields".into(),
             nontrivial_set: "nontrivial",
             assumptions: vec![
                 "reply schemas (harness/src/props/c16.rs, DESIGN.md appendix D) typed from the MPD protocol reference are the trusted base".into(),
-                "durations are sent with millisecond precision as MPD prints them and compared within 1 microsecond".into(),
+                "durations are sent with millisecond precision as MPD prints them (`S.mmm`; in the random part a third in another decimal spelling of the same number: trailing zeros trimmed, two or six decimals, bare integer) and compared within 1 microsecond".into(),
                 "signed/zero-padded spellings such as +1 or 05 are not used as domain violations (the statement is silent on them)".into(),
             ],
             exhaustive: Some(true),
